@@ -192,7 +192,9 @@ pub fn gen_hostile(rng: &mut Rng) -> Module {
 // G-adversarial (compile half)
 
 fn adv_name(rng: &mut Rng) -> String {
-    match rng.below(14) {
+    match rng.below(16) {
+        14 => "q7".into(),
+        15 => "modq.q7".into(),
         0 => String::new(),
         1 => "super".into(),
         2 => "super.super.x".into(),
@@ -323,7 +325,12 @@ pub fn gen_adversarial(rng: &mut Rng) -> Module {
         }
         for _ in 0..rng.usize(3) {
             if tidy {
-                let imp = ["std.map", "std.filter", "std.sorted", "std.min"][rng.usize(4)].to_string();
+                // the last four reach above the importing module, possibly above the root
+                let imp = [
+                    "std.map", "std.filter", "std.sorted", "std.min", "super.q7", "super.super.q7", "super.modq",
+                    "super.super.super.modq.q7",
+                ][rng.usize(8)]
+                .to_string();
                 if !m.imports.contains(&imp) {
                     m.imports.push(imp);
                 }
@@ -347,7 +354,39 @@ pub fn gen_adversarial(rng: &mut Rng) -> Module {
     // make sure there is a main most of the time
     if rng.chance(4, 5) && !m.functions.iter().any(|(n, _)| n == "main") {
         let mut f = Function::default();
-        match rng.below(6) {
+        match rng.below(8) {
+            6 => {
+                // calls through imports that climb with `super`
+                f.cards.push(Card::set_global_var("a", Card::call_function("q7", vec![])));
+                f.cards.push(Card::set_global_var("b", Card::call_function("modq.q7", vec![])));
+                f.cards.push(Card::set_global_var("c", c(CardBody::Function("q7".into()))));
+                let imp = ["super.q7", "super.super.q7", "super.modq", "super.super.modq"][rng.usize(4)].to_string();
+                if !m.imports.contains(&imp) {
+                    m.imports.push(imp);
+                }
+            }
+            7 => {
+                // a closure nested two deep whose inner function captures (nearly) all of the locals
+                // of its parent and some of its grandparent
+                let np = 240 + rng.usize(16);
+                let ng = rng.usize(4);
+                for i in 0..ng {
+                    f.cards.push(Card::set_var(format!("g{i}"), Card::scalar_int(i as i64)));
+                }
+                let mut parent = Function::default();
+                for i in 0..np {
+                    parent.cards.push(Card::set_var(format!("l{i}"), Card::scalar_int(i as i64)));
+                }
+                let mut inner = Function::default();
+                for i in 0..np {
+                    inner.cards.push(Card::set_global_var("x", Card::read_var(format!("l{i}"))));
+                }
+                for i in 0..ng {
+                    inner.cards.push(Card::set_global_var("y", Card::read_var(format!("g{i}"))));
+                }
+                parent.cards.push(Card::set_var("inner", c(CardBody::Closure(Box::new(inner)))));
+                f.cards.push(Card::set_var("parent", c(CardBody::Closure(Box::new(parent)))));
+            }
             0 => {
                 // many globals
                 for i in 0..(10 + rng.usize(60)) {
